@@ -29,6 +29,13 @@ BUDGET = {"quick": {"workers": 6, "examples": 300, "seconds": 40},
 def cases(draw):
     desc = draw(gen.dcops(min_vars=1, max_vars=5, max_dom=3, max_constraints=6, arities=(2,), var_costs=False,
                           costs=gen.small_int_costs, nonneg_min=True))
+    if draw(st.integers(0, 5)) == 0 and all(c["kind"] == "matrix" for c in desc["constraints"]):
+        # integer costs on an offset of 2^53: exact as ints, no longer distinguishable once turned into floats
+
+        def lift(t):
+            return [lift(x) for x in t] if isinstance(t, list) else t + 2 ** 53
+        for c in desc["constraints"]:
+            c["table"] = lift(c["table"])
     return {"dcop": desc, "schedule": draw(gen.schedules(40)), "algo_seed": draw(st.integers(0, 100))}
 
 
